@@ -153,13 +153,13 @@ check_metz(const json& c)
               std::cerr << "  k[" << j << "]=" << k.c[std::size_t(L + j)] << " formula " << metz_formula(j, sigma_mm, power[a], samp[a]) << "\n";
           }
         vf::stats().maxi(power[a] > 0 ? "metz: max |k_j - formula_j|/formula_0 (power>0)" : "metz: max |k_j - formula_j|/formula_0 (power 0)", worst);
-        VF_CHECK(worst <= 0.02, "Metz kernel (fwhm ", fwhm[a], " mm, power ", power[a], ", sampling ", samp[a],
+        VF_CHECK(worst <= TOL_METZ_FORMULA, "Metz kernel (fwhm ", fwhm[a], " mm, power ", power[a], ", sampling ", samp[a],
                  " mm) deviates from the documented band-limited Metz function by ", worst, " of its peak");
       }
     }
   const auto F = make_metz(fwhm, power, samp, m);
   const Runner run = [&](const Nd& x, int md, Nd& got) { return apply3(*F, x, md, got); };
-  return check_against_kernels(run, kk, c, "metz", "metz: max err/(prod|k|1 |x|inf)", unit_gain, TOL_METZ_SUM * 3);
+  return check_against_kernels(run, kk, c, "metz", "metz: max err/(prod|k|1 |x|inf)", unit_gain, TOL_METZ_SUM);
 }
 
 // =============================================================================================
